@@ -410,8 +410,8 @@ def r13_listen_only_stays_unsendable(ck, cx, rule='R13'):
             if v is None:
                 continue
             same = isinstance(v, ast.Constant) and v.value is want
-            if want is True and not isinstance(v, ast.Constant):
-                continue        # depends on what the caller passes; execute() passes nothing of the kind
+            # a computed instance value shadows the class constant: the front-ends that gate on it (all but one) then stay silent for
+            # some responses while the one that does not gate answers -- and a response to an accepted request is withheld
             site = next((e for e in p.ev if e.kind == 'assign' and U(e.a) == 'self.should_respond'), None)
             ck.ob(rule, k.qn, 'an instance carries should_respond = %r, the constant of its class' % want, same,
                   detail='instance-should-respond %s' % U(v)[:40], loc=cx.floc(site.frame.func, site.node) if site is not None and site.frame.func is not None else k.loc,
